@@ -238,8 +238,24 @@ impl Prop for C05 {
                 replicas[0].role = format!("parking-{}", replicas[0].role);
             }
         }
+        for i in 1..replicas.len() {
+            if !replicas[i].role.contains("lazy") && !replicas[i].role.contains("restarting") && !replicas[i].role.contains("parking") && rng.pct(30) {
+                // slow / re-entrant / probing variants of a twin (migrating, logging and env are drawn above)
+                let before = replicas[i].role.clone();
+                super::decorate_role(&mut rng, &mut replicas[i]);
+                if replicas[i].role.contains("migrating") && !before.contains("migrating") && !replicas[i].warmup.is_empty() {
+                    replicas[i].role = before;
+                }
+            }
+        }
         let derive = rng.pick(&["Serialize, Deserialize", "", "Debug", "Debug, Clone, Debug", "Serialize, Deserialize, Debug, Serialize", "B, A, C, A, B", "serde::Serialize, serde::Deserialize", "some::very::long::qualified::path::to::a::derive::macro::that::goes::on::and::on::and::on::for::more::than::a::hundred::columns::Trait"]).to_string();
-        Scenario::Session(Session { alts: vec![None; docs.len()], docs, replicas, opts: all_opts(&derive) })
+        let mut opts = all_opts(&derive);
+        if rng.pct(50) {
+            // options a caller sets through the public fields: other text identifier / attribute prefix
+            opts.push(crate::session::RenderOpt { serde_xml_rs: false, by_name: rng.pct(50), derive: derive.clone(), attribute_prefix: Some(rng.pick(&["attr_", "", "@@"]).to_string()), text_identifier: Some(rng.pick(&["$value", "#text", "body"]).to_string()) });
+            opts.push(crate::session::RenderOpt { serde_xml_rs: true, by_name: rng.pct(50), derive: derive.clone(), attribute_prefix: None, text_identifier: Some("$value".into()) });
+        }
+        Scenario::Session(Session { alts: vec![None; docs.len()], docs, replicas, opts })
     }
     fn exec(&self, sc: &Scenario, ctr: &mut Ctr) -> Result<Exec, String> {
         if let Scenario::Cli(c) = sc {
@@ -258,7 +274,30 @@ impl Prop for C05 {
         if s.replicas.iter().any(|r| r.warmup.iter().any(|w| !matches!(w.input, Input::Raw(_)))) {
             return Ok(super::skip("warmup_must_be_raw"));
         }
-        if s.replicas.iter().any(|r| r.steps != s.replicas[0].steps) {
+        // twins must receive identical deliveries; plan fields that only describe the environment around a delivery
+        // (park / re-entrancy / simulated delay) may differ
+        let same = |a: &Vec<Step>, b: &Vec<Step>| {
+            a.len() == b.len()
+                && a.iter().zip(b.iter()).all(|(x, y)| {
+                    let (mut p, mut q) = (x.plan.clone(), y.plan.clone());
+                    for pl in [&mut p, &mut q] {
+                        pl.park_at = None;
+                        pl.nested_at = None;
+                        pl.delay_at = None;
+                        pl.delay_secs = 0;
+                    }
+                    // a slice plan and a whole (one chunk) plan deliver the same bytes the same way
+                    let norm = |pl: &mut Plan| {
+                        if pl.slice {
+                            *pl = Plan::whole();
+                        }
+                    };
+                    norm(&mut p);
+                    norm(&mut q);
+                    x.input == y.input && x.cfg == y.cfg && p == q
+                })
+        };
+        if s.replicas.iter().any(|r| !same(&r.steps, &s.replicas[0].steps)) {
             // entropy twins must receive identical deliveries; anything else is not a C05 scenario
             return Ok(Exec { violation: None, trace: 0, fingerprint: 0, nontrivial: false, sim_steps: 0, discarded: Some("twins_differ".into()), shape: 0, env_sig: 0 });
         }
